@@ -304,7 +304,8 @@ def _ood_failures(limit=None):
 
 def _names_failures(limit=None):
     """Bounded: one record, one name per file, on the real binaries.  A small tree with a symlinked directory (link -> real) and
-    a symlink that leaves its directory (a/jump -> ../b/deep); nine spellings of three files; for every ordered pair of
+    a symlink that leaves its directory (a/jump -> ../b/deep); eleven spellings of four files (one in a directory that the
+    script creates); for every ordered pair of
     spellings a fresh project in which `redo <first>` and then `redo <second>` run.  Afterwards the Files table is read:
     every record of a *.gen file carries the physical name of the spelling that asked for it (directory part resolved,
     then cleaned), no two records denote one file, and the file that was asked for is the one that was built.
@@ -317,7 +318,9 @@ def _names_failures(limit=None):
     env['PATH'] = bindir + ':' + env.get('PATH', '')
     work = tempfile.mkdtemp(prefix='redo-verif-names.', dir='/var/tmp')
     spell = ['real/x.gen', 'link/x.gen', 'real/sub/../x.gen', 'link/sub/../x.gen', './real//x.gen',
-             'a/x.gen', 'a/jump/../x.gen', 'b/x.gen', 'b/deep/../x.gen']
+             'a/x.gen', 'a/jump/../x.gen', 'b/x.gen', 'b/deep/../x.gen',
+             # a directory that does not exist until the script makes it, below the symlinked directory and below the real one
+             'link/new/y.gen', 'real/new/y.gen']
     fails, n = [], 0
     try:
         for s1, s2 in itertools.permutations(spell, 2):
@@ -329,7 +332,7 @@ def _names_failures(limit=None):
                 os.makedirs(os.path.join(proj, d))
             os.symlink('real', os.path.join(proj, 'link'))
             os.symlink('../b/deep', os.path.join(proj, 'a', 'jump'))
-            open(os.path.join(proj, 'default.gen.do'), 'w').write('echo "$1" >>"%s/trace"\necho made\n' % proj)
+            open(os.path.join(proj, 'default.gen.do'), 'w').write('mkdir -p "$(dirname "$1")"\necho "$1" >>"%s/trace"\necho made\n' % proj)
             hist = 'tree: link -> real, a/jump -> ../b/deep; redo %s; redo %s' % (s1, s2)
 
             def canon(sp):
